@@ -7,6 +7,6 @@ trap 'git -C /repo checkout -q -- . ; git -C /repo reset -q' EXIT
 if ! git apply --3way "$patch" 2>/tmp/apply.err; then echo "patch does not apply: $(cat /tmp/apply.err)"; exit 3; fi
 git reset -q
 for p in "$@"; do
-  (cd /verif && python3-vt bin/check.py "$p" --no-evidence > /tmp/try_seed.out 2>&1; echo "[$p exit=$?]" >> /tmp/try_seed.out)
+  (cd /verif && timeout 420 python3-vt bin/check.py "$p" --no-evidence > /tmp/try_seed.out 2>&1; echo "[$p exit=$?]" >> /tmp/try_seed.out)
   grep -v "^WARNING conda" /tmp/try_seed.out | cut -c1-600
 done
